@@ -9,6 +9,10 @@ INFO = {
             "technique": "contract-based deductive verification: pyvc VCs from the real deterministic_choice body + lemmas over its contract, z3/cvc5",
             "level_text": "full functional contract of deterministic_choice (membership, interval postcondition, exceptional postconditions, frame, delegation) proved for all arguments by z3 from VCs generated from the current source; equivalence lemmas proved over the contract",
             "level_note": _PROOF_NOTE},
+    "C11": {"engine": "pyvc", "design_ref": "DESIGN.md 4/C11",
+            "technique": "contract-based deductive verification: representation invariant with ghost state on the real recompile/__init__/__call__ bodies, state-after-exception and frame obligations, z3",
+            "level_text": "every path of recompile / __init__ / __call__ / run_experiment / parse_source (incl. every exceptional path of every callee) is proved to preserve the invariant 'behaves like a fresh evaluator of the last accepted text', to leave the instance unchanged on any exception and to write only to its own instance; histories follow by induction (paper step); a bounded history exploration on the real class is the labelled stand-in",
+            "level_note": _PROOF_NOTE + " Pipeline stages (tokenize, parse, generate, compile, exec) are deterministic uninterpreted functions that may raise."},
     "C18": {"engine": "pyvc", "design_ref": "DESIGN.md 4/C18",
             "technique": "contract-based deductive verification: pyvc VCs from the real probit/confidence_interval bodies, nlsat lemmas over the contracts",
             "level_text": "probit and confidence_interval verified against algebraic textbook contracts for all n>=1, p in [0,1], confidence in (0,1); symmetry by two-run obligations; monotonicity lemmas by z3 nlsat; the normal-quantile clause only by a bounded grid (labelled)",
@@ -20,7 +24,6 @@ NOT_APPLICABLE = {
 }
 for _p, _why in {"C01": "links not yet built (generator/evaluator)", "C02": "links not yet built", "C03": "generator alignment link not yet built",
                  "C05": "links not yet built", "C06": "links not yet built", "C07": "links not yet built", "C08": "lexer engine not yet built",
-                 "C09": "generator link not yet built", "C10": "generator single-key link not yet built", "C11": "evaluator contracts not yet built",
-                 "C12": "generator key link not yet built", "C13": "generator link not yet built", "C14": "generator link not yet built",
+                 "C09": "generator link not yet built", "C10": "generator single-key link not yet built",                  "C12": "generator key link not yet built", "C13": "generator link not yet built", "C14": "generator link not yet built",
                  "C15": "generator key link not yet built", "C17": "effect scan not yet built"}.items():
     NOT_APPLICABLE.setdefault(_p, "not claimed yet (work in progress): " + _why)
